@@ -47,6 +47,13 @@ def run(ctx):
     t0 = time.time()
     rp = vlib.run_impl_sharded('ring', [{'op': 'parse', 'text': t, 'timeout': 5} for t in texts], timeout=1800)
     rr = vlib.run_impl_sharded('ring', [{'op': 'read', 'text': t, 'timeout': 5} for t in texts], timeout=1800)
+    # one process reading several texts that use the same unknown element one after the other
+    same = [t for t in ringgen.SAME_PROCESS if t not in texts]
+    for op, dst in (('parse', rp), ('read', rr)):
+        r1, diag = vlib.run_impl('ring', {'cases': [{'op': op, 'text': t, 'timeout': 5} for t in same]}, timeout=600)
+        dst += r1['results'] if r1 else [{'_child_failed': diag} for _ in same]
+    texts += same
+    hist['same_process'] = len(same)
     hist['impl_wall_s'] = round(time.time() - t0, 1)
     kinds = {}
     for t, r in zip(texts, rr):
